@@ -352,6 +352,17 @@ Proof.
     + exists ia, na. split; [|exact Ea]. now apply is_run_app_l.
 Qed.
 
+(** no run at all exactly when the series holds no 1 *)
+Lemma longest_run_zero l L : longest_run l L -> (L = 0 <-> ~ In 1 l).
+Proof.
+  intros [U (i & n & R & E)]. split.
+  - intros -> H. apply In_nth with (d := 0) in H. destruct H as (j & Hj & Ej).
+    assert (is_run l j 1) as R1. { split; [lia|]. intros k Hk. replace k with j by lia. exact Ej. }
+    specialize (U _ _ R1). lia.
+  - intros H. destruct n as [|n]; [lia|]. exfalso. apply H. destruct R as [R1 R2].
+    rewrite <- (R2 i ltac:(lia)). apply nth_In. lia.
+Qed.
+
 Lemma ss_snoc (l : list (Z * Z)) x :
   StronglySorted tdesc l -> Forall (fun p => fst x <= fst p) l -> StronglySorted tdesc (l ++ [x]).
 Proof.
